@@ -34,6 +34,10 @@ type c05Job struct {
 	// deep: indices of the paths (single steps, $[?(atom)] for the reduced atoms) whose long
 	// histories are explored with default pool answers
 	deep []int
+	// big: indices (into docs) of gen.BigDocs; the relabelled variant of big[k] is docs[big[k]+1]
+	big []int
+	// nSmall: documents [0,nSmall) are the candidates of the per-path document alphabet
+	nSmall int
 }
 
 func newC05(tier string) run.Job {
@@ -78,9 +82,15 @@ func newC05(tier string) run.Job {
 	j.xdoc = decodeDoc(c05XDoc, modeFloat)
 	spec := gen.DocSpec{MaxNodes: 4, Keys: gen.KAB, Scalars: gen.S5, MaxArr: 3}
 	j.docs = gen.Docs(spec)
+	nSmall := len(j.docs)
+	for _, d := range gen.BigDocs() {
+		j.big = append(j.big, len(j.docs))
+		j.docs = append(j.docs, d, gen.Relabel(d))
+	}
 	for _, d := range j.docs {
 		j.text = append(j.text, gen.JSON(d))
 	}
+	j.nSmall = nSmall
 	return j
 }
 
@@ -149,9 +159,9 @@ func (j *c05Job) chooseDocs(f impl.Func, n int) []int {
 		key     string
 		success bool
 	}
-	evs := make([]ev, len(j.docs))
+	evs := make([]ev, j.nSmall)
 	first := -1
-	for di, d := range j.docs {
+	for di, d := range j.docs[:j.nSmall] {
 		res := impl.Call(f, gen.Clone(d))
 		key := res.ErrType + "/" + show(res.Values)
 		evs[di] = ev{key, res.ErrType == "" && res.Panic == ""}
@@ -172,7 +182,7 @@ func (j *c05Job) chooseDocs(f impl.Func, n int) []int {
 		shape := docShape(j.docs[first])
 		// same shape, different outcome: failures first (they flip the atoms), then other successes
 		for pass := 0; pass < 2; pass++ {
-			for di := range j.docs {
+			for di := range evs {
 				if docShape(j.docs[di]) == shape && evs[di].success == (pass == 1) {
 					take(di)
 				}
@@ -181,14 +191,14 @@ func (j *c05Job) chooseDocs(f impl.Func, n int) []int {
 	}
 	// one representative per error type, then anything new
 	errSeen := map[string]bool{}
-	for di := range j.docs {
+	for di := range evs {
 		et := strings.SplitN(evs[di].key, "/", 2)[0]
 		if !evs[di].success && !errSeen[et] {
 			errSeen[et] = true
 			take(di)
 		}
 	}
-	for di := range j.docs {
+	for di := range evs {
 		take(di)
 	}
 	return out
@@ -463,6 +473,43 @@ func (j *c05Job) RunUnit(i int, c *run.Ctx) {
 		}
 		rec(nil)
 	}
+	// big documents (9..18 members, 6 levels, ternary trees): three fixed history shapes on the
+	// first two big documents the path succeeds on, default pool answers
+	if !acc && !deep && !violated {
+		var bs []int
+		for _, bi := range j.big {
+			if res := impl.Call(pr.F, gen.Clone(j.docs[bi])); res.ErrType == "" && res.Panic == "" {
+				bs = append(bs, bi)
+				if len(bs) == 2 {
+					break
+				}
+			}
+		}
+		if len(bs) > 0 {
+			b0 := bs[0]
+			b1 := bs[len(bs)-1]
+			for _, di := range []int{b0, b0 + 1, b1, b1 + 1} {
+				if _, have := refs[di]; !have {
+					fp := impl.Parse(pathText, cfg)
+					refs[di] = outcomeString(impl.Call(fp.F, gen.Clone(j.docs[di])))
+				}
+			}
+			saveBound := bound
+			bound = 0
+			for _, hist := range [][]int{
+				{b0, b1, b0},
+				{b0, c05M(b0, b0+1), b0},
+				{b1, b0, c05X, b1},
+				{b1 + 1, c05M(b1+1, b1), c05X, b1 + 1, b0},
+			} {
+				if !violated {
+					exploreHistory(hist)
+				}
+			}
+			bound = saveBound
+			c.Add("big_document_histories", 4)
+		}
+	}
 	c.Outcome(fmt.Sprintf("docs=%d", len(chosen)))
 	if i%97 == 0 {
 		var ds []string
@@ -481,6 +528,7 @@ func init() {
 		Assumptions: []string{
 			"pool answers (which recycled buffer a Get returns, or a miss) are owned by the explorer through the instrumented build; option 0 = most recently put",
 			"the per-path document alphabet is chosen by exhaustive scoring over all documents of <=4 nodes: the first success, then documents of the same shape whose outcome differs (they flip the filter atoms), then one per remaining outcome class",
+			"for every path four fixed histories on the big documents (call/call/call, call/edit in place/call, with the pool-cycling retrieval) with default pool answers",
 			"histories longer than the bound are not explored; state hidden inside the parsed tree is observed only through call results",
 		},
 		Bounds: map[string]string{
